@@ -33,7 +33,7 @@ KEY_TAIL = "C17-error-response-cut-in-unread-tail"
 def _hb(i):
     return "00000006%08x0000" % i
 CROSS_CASE = ("run 74 produce:2:0,heartbeat:0:0,heartbeat:0:0,heartbeat:0:0,heartbeat:0:0 "
-              "00000029000000020000000100017400000001000000000006000000000000000500000000000000070000000006,"
+              "0000002900000002000000010001740000000100000000000600000000000000050000000000000007" "00000006,"
               + ",".join(_hb(i) for i in (3, 4, 5, 6)) + " -")
 CROSS_FEATS = "fixed,cross,op=producev2,field=partition,code=6,next=heartbeatv0"
 
@@ -86,9 +86,10 @@ def predicate(c):
     if "exh" in f and len(r) == 2:
         (c1, x1), (c2, x2) = r
         k1, k2 = kind(c1), kind(c2)
+        base = c.get("base")          # the second operation alone on a fresh Conn
+        same = (base is None and k2 == "ok") or (base is not None and base == c2 + "~" + x2)
         if k1 == "kafka":
-            # the second frame is a success response: on a fresh Conn the operation succeeds
-            if k2 != "ok" or x1 != "0":
+            if not same or x1 != "0":
                 if op.startswith("produce"):
                     key = F2_KEYS["produce"]
                 elif op.startswith("fetch"):
@@ -96,11 +97,11 @@ def predicate(c):
                 else:
                     key = f"C11-misaligned-{op}-{f.get('field')}"
                 bad.append((key, f"{op} {f.get('field')} error code {f.get('code')}: the next operation ({f.get('next')}) "
-                                 f"returned {c2[:40]} instead of succeeding as on a fresh Conn"))
+                                 f"returned {c2[:40]} but {str(base)[:40]} on a fresh Conn"))
         elif k1 == "ok":
-            if k2 != "ok":
+            if not same:
                 key = KEY_HWM if (op.startswith("fetch") and "hwm" in f) else f"C11-misaligned-after-ok-{op}"
-                bad.append((key, f"{op} succeeded but the next operation ({f.get('next')}) returned {c2[:40]}"))
+                bad.append((key, f"{op} succeeded but the next operation ({f.get('next')}) returned {c2[:40]}, and {str(base)[:40]} on a fresh Conn"))
         elif k1 != "noprogress":
             # a framing / transport error: the Conn must be closed and the next call must fail
             if x1 != "1" and not op.startswith("apiversions"):
@@ -127,6 +128,28 @@ def setup():
     L.ocaml_build("c11")
 
 
+def add_baselines(gobin, cases):
+    # "the next operation behaves as it would on a fresh connection", evaluated directly: the
+    # second operation of every two-operation case is re-run ALONE on a fresh Conn against the
+    # same response (correlation id patched to the fresh Conn's first id, 2)
+    base_lines, owners = [], []
+    for c in cases:
+        a = c["args"].split(" ")
+        if "exh" in feats_of(c) and len(a) == 4 and a[3] == "-" and a[1].count(",") == 1 and a[2].count(",") == 1:
+            f2 = a[2].split(",")[1]
+            base_lines.append("%d run %s %s %s -" % (len(base_lines) + 1, a[0], a[1].split(",")[1], f2[:8] + "00000002" + f2[16:]))
+            owners.append(c)
+    if base_lines:
+        rc, out3, err3, _ = L.sh([gobin, "-run"], input="\n".join(base_lines) + "\n", timeout=1200)
+        if rc != 0:
+            raise L.Fail("correspondence", "harness cmd/c11 -run crashed on the fresh-Conn baselines", (out3[-1500:] + err3[-2500:]))
+        bl = L.parse_cases(out3)
+        if len(bl) != len(owners):
+            raise L.Fail("correspondence", "fresh-Conn baseline run returned %d of %d results" % (len(bl), len(owners)))
+        for c, b in zip(owners, bl):
+            c["base"] = b["go"]
+
+
 def run_cases(ctx):
     gobin = L.go_build("c11")
     model = L.ocaml_build("c11")
@@ -148,6 +171,7 @@ def run_cases(ctx):
         raise L.Fail("correspondence", "harness cmd/c11 -run crashed", (out2[-1500:] + err2[-2500:]))
     cases += L.parse_cases(out2)
     res = L.run_model(model, "\n".join(c["line"] for c in cases) + "\n")
+    add_baselines(gobin, cases)
     return cases, res
 
 
@@ -268,6 +292,7 @@ def replay(ctx, payload):
         print("harness failed:", err[-1500:])
         return 1
     c = cs[0]
+    add_baselines(gobin, [c])
     res = L.run_model(model, c["line"] + "\n")
     print("go result now:       ", c["go"])
     print("model now:           ", res.get(c["id"]))
